@@ -1106,7 +1106,13 @@ class SpectrumResult:
             for d in self._data["D"]:
                 arr = np.asarray(d, dtype=np.int64)
                 D_list.append(arr)
-            self._data["D"] = np.array(D_list, dtype=object)
+            # Fill a 1-D object array element-wise: np.array(D_list, dtype=object)
+            # would collapse equal-length start vectors (single-bin results, plans
+            # with a uniform segment count) into a 2-D array.
+            D_obj = np.empty(len(D_list), dtype=object)
+            for k, arr in enumerate(D_list):
+                D_obj[k] = arr
+            self._data["D"] = D_obj
 
         # Convenience: number of frequency bins
         self.nf = int(self._data.get("f", np.array([])).shape[0])
